@@ -229,6 +229,64 @@ def run_tree(mon, rng, nblocks, norders, seed_name, exhaustive_orders=False, tal
                             "tx_per_block": [len(world.chain.blocks[b].txs) - 1 for b in ids], "orders": len(orders)})
 
 
+def two_thread_lane(mon, rng, ntrees, npoints=14):
+    """the chain state object is shared by the node's threads (networking, miner watcher, wallet/repl): two of them ask it
+    for balances at overlapping times -- the same block or blocks of different forks, neither asked before.  Thread A is held
+    at a source location of the ledger modules while thread B's query completes on the SAME state object; both must report
+    what a lone query reports, and so must the queries made afterwards on that object"""
+    import skepticoin.balances as bal
+    import skepticoin.coinstate as csm
+    from skv import preempt
+    pre = preempt.Preempter([bal, csm])
+    if not pre.ok:
+        mon.c["two_thread_tool_slot_taken"] = 1
+        return
+    state = preempt.ModuleState([bal, csm])
+
+    def view(cs, bid):
+        return {pk.public_key: (b.value, sorted((r.hash, r.index) for r in b.output_references))
+                for pk, b in cs.public_key_balances_by_hash[bid].items()}
+    try:
+        for _ in range(ntrees):
+            world = gen.World(rng)
+            ids = world.grow(rng.choice([8, 14, 20]), rng, tx_prob=0.8, bias="mixed")
+            tips = sorted(world.chain.tips())
+            head = world.cs.current_chain_hash
+            pairs = [(head, head), (head, rng.choice(ids)), (rng.choice(ids), head)]
+            if len(tips) > 1:
+                other = rng.choice([t for t in tips if t != head])
+                pairs += [(head, other), (other, head)]
+            for x, y in pairs:
+                exp_x = {}
+                for r, (v, k) in world.chain.replay_uncached(x).items():
+                    t0, refs = exp_x.get(k, (0, []))
+                    exp_x[k] = (t0 + v, sorted(refs + [r]))
+                setup = (lambda: world.state_at(head))
+                ja = (lambda cs, b=x: view(cs, b))
+                jb = (lambda cs, b=y: view(cs, b))
+                for t in preempt.trials(pre, state, setup, ja, jb, rng, npoints):
+                    mon.c["two_thread_trials"] = mon.c.get("two_thread_trials", 0) + 1
+                    if isinstance(t["want_a"], preempt.Raised) or {k: v for k, v in t["want_a"].items() if v[1]} != exp_x:
+                        continue        # (a lone query already disagrees with the replay: the arrival-order lanes report that)
+                    for who, got, want in preempt.disagreements(t):
+                        w = {"blocks": gen.blocks_hex(world, ids), "lane": "two-threads", "block_a": ids.index(x) if x in ids else -1,
+                             "block_b": ids.index(y) if y in ids else -1, "switch_at_event": t["k"], "of_events": t["total"]}
+                        if isinstance(got, preempt.Raised):
+                            mon.v("balances-cannot-be-reported-for-a-stored-block", "%s: asking one chain state for balances from two "
+                                  "threads raises %r" % (who, got.e), w)
+                        else:
+                            bad = [k for k in set(got) | set(want) if got.get(k) != want.get(k)]
+                            mon.v("balances-depend-on-another-threads-query", "%s: balances at a block (h=%d) differ from what a lone "
+                                  "query reports for %d keys when two threads ask the same chain state at once (other block h=%d; "
+                                  "switch at event %d of %d), e.g. balance %s instead of %s" % (
+                                      who, world.chain.blocks[x if "A" in who else y].height, len(bad),
+                                      world.chain.blocks[y if "A" in who else x].height, t["k"], t["total"],
+                                      got.get(bad[0], (None,))[0] if bad else None, want.get(bad[0], (None,))[0] if bad else None), w)
+                        break
+    finally:
+        pre.close()
+
+
 def deep_reorganisation(mon, rng):
     """a chain of 104-130 blocks, a competing chain from (near) genesis that overtakes it -- a reorganisation more than 100
     blocks deep -- and then LATE blocks on blocks buried deep in the abandoned chain, spending outputs that exist only there"""
@@ -273,6 +331,9 @@ def replay(mon, w, rng):
     for hx in w["blocks"]:
         rb = ref.parse_block(bytes.fromhex(hx))
         ids.append(world.accept(rb, bridge.rblock_to_real(rb), validate=False))
+    if w.get("lane") == "two-threads":
+        two_thread_lane(mon, rng, 4)        # (the lane is re-run: the recorded tree is for the reader)
+        return
     order = [ids[i] for i in w.get("order", range(len(ids)))]
     mon.run_order(world, order, w, "replay", validate=False, rng=rng)
 
@@ -293,6 +354,7 @@ def run_shard(spec):
             run_tree(mon, rng, rng.choice([44, 70, 100]), 2, "tall%d" % j, tall=True)
         if spec["shard"] % 2 == 0 or not quick:
             deep_reorganisation(mon, rng)
+        two_thread_lane(mon, rng, 1 if quick else 10)
     return {"evaluations": mon.c["adds"], "digests": sorted(mon.digests), "violations": mon.viol, "counters": mon.c,
             "samples": mon.samples}
 
@@ -308,6 +370,7 @@ def finalize(m, tier):
                    ("blocks_with_transactions", c.get("blocks_with_transactions", 0), 200),
                    ("reorganisations", c.get("reorganisations", 0), 50),
                    ("snapshots_rechecked", c.get("snapshots_rechecked", 0), 5000), ("tall_trees", c.get("tall_trees", 0), 10),
-                   ("deep_reorganisation_trees", c.get("deep_reorganisation_trees", 0), 6)],
+                   ("deep_reorganisation_trees", c.get("deep_reorganisation_trees", 0), 6),
+                   ("two_thread_trials", c.get("two_thread_trials", 0), 500)],
         "extra": {"auxiliary_lane": "one shard runs under -X dev -X faulthandler (CPython debug allocator); auxiliary only"},
     }
